@@ -7,15 +7,15 @@ HOOK_COMMITS = subprocess.run(["git", "-C", "/repo", "log", "--format=%h %s", "-
 CLAIMED = {
     "C01": ("§4 C01", "Seeded exploration of put-then-get over real networks (1..20 servers + 0..30 clients exact verdict; 50..300 servers judged by success rate against a floor of 0.75, measured baseline 0.96), all four data kinds, crash sets (random, all-ackers-but-one, hub, non-ackers) with empty restarts, readers with lookups already in flight; precondition (a live acker reachable through live tables of the kind the lookup walks) evaluated from snapshots; two open known findings (queries keyed by target only).",
             "deterministic simulation with crash/restart fault injection, availability oracle over trace + snapshots"),
-    "C12": ("§4 C12", "Always-on invariant over every snapshot (structure, bucket placement, capacity, size/iteration/is_empty agreement, per-IP Sybil limits) and every pair of consecutive snapshots (an entry vanishes only when stale or on re-key; a full bucket replaces only its stale head) of real servers whose tables are driven through the protocol path by adversarial find_node streams (clustered ids, repeated ids, many ids per IP, secure/insecure), across the 15-minute boundary and a re-key.",
+    "C12": ("§4 C12", "Always-on invariant over every snapshot (structure, bucket placement, capacity, size/iteration/is_empty agreement, per-IP Sybil limits) and every pair of consecutive snapshots (an entry vanishes only when stale or on re-key; a full bucket replaces only its stale head; a re-added known node has age zero right after the request that re-added it) of real servers whose tables are driven through the protocol path by adversarial find_node streams (clustered ids, repeated ids, many ids per IP, secure/insecure), across the 15-minute boundary and a re-key.",
             "deterministic simulation with virtual clock, adversarial request streams, per-step snapshot invariants"),
     "C14": ("§4 C14", "Seeded exploration of 1..6 virtual hours of 3..16-node networks with crashes, restarts, lookups and clock skew; every 30 virtual seconds: answered-within-15-min peers still present (capacity / IP-slot / re-key exempt), dead incarnations gone after 21 min, restarted peers re-learned within 40 min, no table empty beyond timeout + 2 s.",
             "deterministic simulation over virtual hours with crash/restart faults, timeline oracle over trace + snapshots"),
-    "C13": ("§4 C13", "Seeded exploration of join schedules (sequential, staggered, simultaneous, late joiners), sizes 1..20 (+0..30 clients) and 50..300, private/public IP plans, dead bootstrap entries: bootstrapped()/non-empty table, first node learns joiners, strongly connected knows-graph, every-server-queried for <= 20 servers, all-dead bootstrap list reports false within the horizon.",
+    "C13": ("§4 C13", "Seeded exploration of join schedules (sequential, staggered, simultaneous, late joiners), sizes 1..20 (+0..30 clients) and 50..300, private/public IP plans, dead bootstrap entries: bootstrapped()/non-empty table, first node learns joiners, strongly connected knows-graph, every-server-queried for <= 20 servers, all-dead bootstrap list reports false within the horizon; slow links (round trips above the initial timeout), junk bootstrap entries, bind conflicts, and an early-bird joiner whose bootstrap server starts later while silent requesters fill its signed-peers table.",
             "deterministic simulation, seeded join-schedule sampling, graph + trace oracle"),
     "C02": ("§4 C02", "Seeded exploration with Byzantine scripted responders: every item surfaced by the six read APIs is independently re-verified (hash / key / salt / signature / target) and authentic replicas must still surface; catalogue of 22 forgeries, any subset of responders, any arrival order.",
             "deterministic simulation with Byzantine-peer fault injection, independent re-verification oracle"),
-    "C16": ("§4 C16", "Seeded exploration of arrival orders of 1..8 authentic replicas (gaps, duplicates, equal-seq ties) for the async API and, through a sequenced helper thread, the sync API; expected value computed from the trace of delivered replies.",
+    "C16": ("§4 C16", "Seeded exploration of arrival orders of 1..8 authentic replicas (gaps, duplicates, equal-seq ties) for the async API and, through a sequenced helper thread, the sync API; every third run enumerates (2..6 items) x (7 seq patterns incl. i64 boundary seqs) x (every arrival permutation) x (both API flavours) from the run index; long streams and calls joining the node's own in-flight put; expected value computed from the trace of delivered replies.",
             "deterministic simulation, seeded delivery-order sampling vs. fold model"),
     "C03": ("§4 C03", "Seeded exploration of request histories against one real server, checked in lock-step with a reference BEP5/BEP44 storage model (reply class per request, store contents after every consumed datagram). Samples, does not enumerate: a clean batch is evidence, not proof.",
             "deterministic simulation, seeded history sampling vs. reference model (lock-step over the consumed-datagram order)"),
@@ -23,7 +23,7 @@ CLAIMED = {
             "deterministic simulation, seeded history sampling vs. BEP44 state machine"),
     "C05": ("§4 C05", "Seeded exploration: server- and client-mode victims in a live network receive a barrage from a structured hostile-datagram catalogue (18 message kinds x every field x 18 type/length confusions, walked across runs), grammar-random and byte-level input, corruption of real traffic, and Byzantine replies to their own in-flight requests; verdict = no actor panic, no API-future panic, process alive, ping and local calls work afterwards.",
             "deterministic simulation with injected/corrupted/Byzantine datagram faults, liveness + panic oracle"),
-    "C06": ("§4 C06", "Seeded exploration of overlapping API calls (12 kinds, colliding targets) under loss, duplication, delay beyond the timeout, corruption, silent/garbage/error-answering peers, caller stalls and clock skew; every future must resolve and every stream end by a horizon computed per run from the reported request timeout and the number of addresses contacted; panic-free; streams yield at most one item per accepted value-bearing reply.",
+    "C06": ("§4 C06", "Seeded exploration of overlapping API calls (12 kinds, colliding targets) under loss, duplication, delay beyond the timeout, corruption, silent/garbage/error-answering peers, caller stalls and clock skew; every future must resolve and every stream end by a horizon computed per run from the reported request timeout and the number of addresses contacted; panic-free; streams yield at most one item per accepted value-bearing reply. Enumerated sweep over one small scenario family: every single datagram fault and peer crash, and in the thorough tier every pair of single faults of one scenario per 8192 elements. Held (undrained) streams; a run that blocks in real time is caught by a watchdog and reported as process-hang.",
             "deterministic simulation with network/peer/clock fault injection, bounded-liveness and exactly-once oracle"),
     "C18": ("§4 C18", "Seeded exploration of four families: client-mode silence and ro marking under every request kind; read-only requesters never in server tables (first node learns normal requesters); ro=1 replies contribute nothing; adaptive mode over 31..50 virtual minutes on a reachable address, behind a restricted-cone NAT without hairpin, and under majority wrong votes.",
             "deterministic simulation with virtual clock and NAT model, trace + snapshot + Info oracle"),
@@ -33,9 +33,9 @@ CLAIMED = {
             "deterministic simulation, seeded call-placement sampling vs. rule table"),
     "C07": ("§4 C07", "Seeded exploration of lookups by a real node in loss-free networks of 2..300 scripted peers with partial knowledge, adversarial id plans and shuffled node lists; closure (every one of the 20 best known entries queried, no address twice), reported-list order and write-destination prefix computed from the lookup's own trace.",
             "deterministic simulation, seeded topology/arrival-order sampling, exact trace oracle"),
-    "C11": ("§4 C11", "Wire monitor: every read reply of real servers compared with the harness's own secure-first/XOR selection from the table snapshot of the same step (tables filled to >20 entries through the real protocol path), plus the lookup-side accumulator order through the C07 scenario. Stated reach: take_until_secure only for parameter values real nodes compute.",
+    "C11": ("§4 C11", "Wire monitor: every read reply of real servers compared with the harness's own secure-first/XOR selection from the table snapshot of the same step (tables filled to >20 entries through the real protocol path), ageing runs (stale members still in the table), plus the lookup-side accumulator order through the C07 scenario and a Sybil-listings scenario (one id under two addresses of differing BEP42 class). Stated reach: take_until_secure only for parameter values real nodes compute.",
             "deterministic simulation, per-step snapshot vs. wire monitor"),
-    "C08": ("§4 C08", "Seeded exploration of ack/error/silence plans over 1..12 scripted storers plus real servers under loss, duplication and late replies, and >255-replica puts through extra_nodes with exactly 255/256/257/511/512/513 ackers; Ok/CasFailed/NotMostRecent/query-error verdict and the token-bearing-targets rule recomputed from the datagram trace; real ackers read back.",
+    "C08": ("§4 C08", "Seeded exploration of ack/error/silence plans over 1..12 scripted storers plus real servers under loss, duplication and late replies, and >255-replica puts through extra_nodes with exactly 255/256/257/511/512/513 ackers; Ok/CasFailed/NotMostRecent/query-error verdict and the token-bearing-targets rule recomputed from the datagram trace; real ackers read back; overlapping announce_peer calls with different ports (Ok needs an acknowledged store request of its own).",
             "deterministic simulation with loss/duplication/delay faults and scripted storers, trace-recomputed verdict"),
     "C09": ("§4 C09", "Seeded exploration with a spoofing adversary that sees every transaction id: responses/errors from wrong port, adjacent IP or unrelated address, with live or guessed tids, before/between/after the genuine reply, plus duplication of genuine replies; marker oracle (no contact to marker nodes, no marker in routing tables or address votes, no spoofed value or ack counted) and genuine-reply-still-accepted / consumed-once oracle.",
             "deterministic simulation with spoofed-datagram injection and duplication faults, marker oracle"),
